@@ -256,13 +256,14 @@ def string_flags_check(prog, R, rule):
              f"flags of a terminated string deviate for bodies {[(s_, r) for s_, r in bad[:3]]} (expected terminated, only-0/1 iff all of 0/_ , consecutive-underscores iff it contains '__'): a well-formed bit string gets a lexical error or a malformed one none")
 
 
-def predicate_class(prog, fn, alphabet):
-    """{c: True/False/'?'} for a `fn(c: char) -> bool` by evaluating its MIR on each character"""
+def predicate_class(prog, fn, alphabet, arg=1):
+    """{c: True/False/'?'} for a `fn(c: char) -> bool` by evaluating its MIR on each character (arg: position of
+    the character parameter; 2 for a closure `|c: &char|`, whose first parameter is its environment)"""
     b = prog.body(fn)
     out = {}
     for c in alphabet:
         vals = set()
-        for p in SymExec(prog, b, max_paths=50).paths({1: ("c", "char", c)}):
+        for p in SymExec(prog, b, max_paths=50).paths({arg: ("c", "char", c)}):
             r = p.env.get(0)
             vals.add(bool(r[2]) if isinstance(r, tuple) and r[0] == "c" else "?")
         out[c] = vals.pop() if len(vals) == 1 else "?"
@@ -318,3 +319,47 @@ def leading_zero_check(prog, R, rule):
     R.ob(rule, "number:after-leading-zero", not bad and n > 0, b.at,
          f"after a leading 0 every character of the decimal scanner's class {''.join(chr(c) for c in consumed)!r} continues the decimal scan ({n} paths)" if not bad else
          f"after a leading 0 the characters {bad} end the literal although eat_decimal_digits consumes them: `0{bad[0]}5.25` loses its fraction/exponent/unit while `1{bad[0]}5.25` keeps it")
+
+
+def keyword_prefix_check(prog, R, rule):
+    """`Cursor::have_openqasm` decides, after an initial 'O', whether the input continues with "PENQASM" and white
+    space.  Tabulated by evaluating its MIR on a model cursor for every proper prefix of the keyword followed by a
+    non-matching character: the answer is false and exactly the matching prefix has been consumed (a scanner that
+    consumes the mismatching character glues it onto the identifier that is lexed instead: `int O;` -> IDENT "O;");
+    for the whole keyword the answer is true iff a white-space character follows, which is not consumed."""
+    from sym import deep_strip
+    for fn, kw in (("oq3_lexer::Cursor::have_openqasm", "PENQASM"), ("oq3_lexer::Cursor::have_pragma", "ragma")):
+        _keyword_prefix_one(prog, R, rule, fn, kw)
+
+
+def _keyword_prefix_one(prog, R, rule, fn, kw):
+    from sym import deep_strip
+    b = prog.body(fn)
+    if b is None:
+        R.ob("ANCHOR", fn, False)
+        return
+    rows = [(kw[:k] + ";", False, k) for k in range(len(kw) + 1)] + [(kw + " ", True, len(kw)), (kw + "\n", True, len(kw)), (kw[:3] + " ", False, 3), (kw[:2] + "X" + kw[3:] + " ", False, 2)]
+    bad = []
+    for text, want, nwant in rows:
+        chars = [ord(c) for c in text] + [0, 0, 0]
+
+        def model(se, st, t, cal, args, site, chars=chars):
+            nb = sum(1 for nm, a, bb in st.calls if nm.endswith("Cursor::bump"))
+            if cal.endswith("Cursor::bump"):
+                return ("adt", "std::option::Option::Some", (("c", "char", chars[nb]),)) if nb < len(chars) else ("adt", "std::option::Option::None", ())
+            if cal.endswith("Cursor::first"):
+                return ("c", "char", chars[nb] if nb < len(chars) else 0)
+            if cal.endswith("is_whitespace") and args and isinstance(args[0], tuple) and args[0][0] == "c":
+                return ("c", "bool", 1 if args[0][2] in (9, 10, 11, 12, 13, 32, 0x85, 0x200E, 0x200F, 0x2028, 0x2029) else 0)
+            return None
+        res = set()
+        for p in SymExec(prog, b, max_visits=9, max_paths=400, call_model=model).paths():
+            if "__diverged__" in p.env:
+                continue
+            r = deep_strip(p.env.get(0))
+            nb = sum(1 for nm, a, bb in p.calls if nm.endswith("Cursor::bump"))
+            res.add((r[2] if isinstance(r, tuple) and r[0] == "c" else "?", nb, "__cut__" in p.env))
+        if res != {(1 if want else 0, nwant, False)}:
+            bad.append((text, sorted(res, key=repr)[:3]))
+    R.ob(rule, fn.split("::")[-1], not bad, b.at, f"{len(rows)} inputs: true iff {kw!r} + white space; consumed = the matching prefix only" if not bad else
+         f"for the continuation {bad[0][0]!r} the scanner gives (answer, characters consumed) {bad[0][1]} ({len(bad)} of {len(rows)} rows deviate; '?' = not evaluable): a character that does not continue the keyword is consumed, or the header is recognised without the separating white space")
